@@ -151,6 +151,48 @@ Theorem C15_mnn_fallback_prunes_one_at_a_time :
 Proof. exact fallback_mnn_prunes_one_at_a_time. Qed.
 Print Assumptions C15_mnn_fallback_prunes_one_at_a_time.
 
+(* ---- the pruning crowding distance of the same engine (misc/pruning_cd.py), fronts without coordinate ties: the removed points
+   were removed one at a time, each of smallest value among the remaining ones, the others recomputed from scratch for the
+   remaining set (greedy_gen / isdef_pcd, Proofs/PcdDefP.v); removing a point never decreases the value of a remaining one
+   (per objective the nearest value above can only grow and the nearest below only shrink, pcd_col_sub_mono), so in the final
+   vector the removed points are <= every remaining point: the descending cut drops exactly them. ---- *)
+From PV Require Import Proofs.PcdDefP.
+Theorem C15_pcd_fallback_prunes_one_at_a_time :
+  forall (F : list (list eq)) m (n_remove : Z),
+    fin_matrix F m -> 1 <= m -> length (hd [] F) = m -> m < length F -> 2 <= length F -> no_coordinate_ties F m ->
+    let n := length F in
+    let ext := extremes_of (X := EQx) F in
+    let Xn := normalize (X := EQx) false F in
+    let d0 := set_inf (X := EQx) ext (pcd_eval (X := EQx) Xn (seq 0 n)) in
+    let L := pcd_loop (X := EQx) (clamp_remove n_remove n m - 1) ext Xn d0 (seq 0 n) in
+    let d := fallback_pcd (X := EQx) F n_remove in
+    let Hf := pcd_remaining F n_remove in
+    d = map (fun x => ediv x (Fin (inject_Z (Z.of_nat m)))) L /\
+    isdef_pcd ext Xn (seq 0 n) d0 /\
+    greedy_gen n (isdef_pcd ext Xn) (clamp_remove n_remove n m - 1) (seq 0 n) d0 Hf L /\
+    isdef_pcd ext Xn Hf L /\
+    NoDup Hf /\ length Hf + (clamp_remove n_remove n m - 1) = n /\
+    forall r p, r < n -> ~ In r Hf -> In p Hf -> gle (nth r d ENaN) (nth p d ENaN).
+Proof. exact fallback_pcd_prunes_one_at_a_time. Qed.
+Print Assumptions C15_pcd_fallback_prunes_one_at_a_time.
+
+(* ---- boundary clause for the same engine's pcd on fronts without coordinate ties (the known finding above needs tied maxima):
+   if the removals leave at least 2 x n_obj members, the loop never removes a holder of an extreme, every other point ends with
+   a finite value, and every tie-break of the cut keeps a holder of the minimum and of the maximum of every objective. ---- *)
+From PV Require Import Proofs.PcdBoundaryP.
+Theorem C15_boundary_pcd_fallback_without_ties :
+  forall (F : list (list eq)) m (n_remove : Z) (front : list nat) quota sel perm sv,
+    fin_matrix F m -> 1 <= m -> length (hd [] F) = m -> 2 <= length F -> no_coordinate_ties F m ->
+    clamp_remove n_remove (length F) m + 2 * m <= length F + 1 ->
+    let crowd := fallback_pcd (X := EQx) F n_remove in
+    length front = length F -> length perm = length crowd -> NoDup perm -> Forall (fun i => i < length crowd) perm ->
+    pick crowd perm = Some sv -> sorted_by (N := EQn) true sv = true -> pick front (firstn quota perm) = Some sel ->
+    2 * m <= quota ->
+    forall j, j < m -> exists a b, holds_min (col (X := EQx) F j) a /\ holds_max (col (X := EQx) F j) b /\
+      (forall x, nth_error front a = Some x -> In x sel) /\ (forall x, nth_error front b = Some x -> In x sel).
+Proof. exact pcd_boundary_kept_tiefree. Qed.
+Print Assumptions C15_boundary_pcd_fallback_without_ties.
+
 (* ---- binary64: the comparisons of IEEE doubles form a strict weak order on all values but NaN, infinities included
    (Base/NumFOrd.v, Flocq), so the cut theorems hold for the crowding vectors the code actually computes ---- *)
 From Coq Require Import PrimFloat.
